@@ -1,7 +1,7 @@
 """C15: queries are pure, optimize changes only vertex poses (frame conditions of GraphSLAM imposed on recorded executions)."""
 from .. import scenario
 
-TEMPLATES = ['r2', 'r3', 'se2', 'se3', 'se2c', 'se3c', 'r2c', 'mixed', 'se2fix', 'se2alias', 'se2shared', 'r3shared', 'r2lonely', 'se3lonely', 'se2big']
+TEMPLATES = ['r2', 'r3', 'se2', 'se3', 'se2c', 'se3c', 'r2c', 'mixed', 'se2fix', 'se2alias', 'se2shared', 'r3shared', 'r2lonely', 'se3lonely', 'se2big', 'se2plain', 'se3reg', 'se2plainc']
 
 
 def model_check(run, thorough):
@@ -49,7 +49,7 @@ def binding_selftest(run, events):
     t3 = copy.deepcopy(base)
     seen = {}
     for e in t3:
-        if e['op'] in ('OptCall', 'Construct'):
+        if e['op'] in ('OptCall', 'Construct', 'Reload'):
             seen = {k: v for k, v in seen.items() if k[0] != e['sid']}
         if e['op'] == 'Query':
             k = (e['sid'], e['q'], e['target'])
@@ -96,6 +96,7 @@ def check(run):
         ops[k] = ops.get(k, 0) + 1
         run.count(key=(e['sid'], e['seq']), nontrivial=e['op'] != 'Construct')
     run.notes['events_by_operation'] = ops
+    run.notes['reloads'] = {'continued': sum(1 for e in events if e['op'] == 'Reload' and not e['raised']), 'refused': sum(1 for e in events if e['op'] == 'Reload' and e['raised'])}
     missing = [q for q in ('calc_chi2', 'edge_error', 'edge_jacobians', 'edge_contribs', 'equals', 'to_g2o', 'plot', 'pose_ops', 'pose_copy') if ('Query:' + q) not in ops]
     if missing or 'OptCall' not in ops:
         raise RuntimeError('vacuity guard: operations never exercised: %r' % missing)
@@ -107,7 +108,7 @@ def check(run):
                    isolated_fixed=any(det.get('isolated_fixed', [])) if det else None)
         if clause in ('opt-report', 'opt-split', 'opt-verbose', 'opt-raised'):
             continue        # the report / stopping rule is C12's property
-        if clause in ('opt-str', 'construct-gradient-index'):
+        if clause in ('opt-str', 'construct-gradient-index') or clause.startswith('reload-'):
             # behaviour specified beyond the listed properties (DESIGN.md section 6): recorded, never a verdict of this property
             run.notes.setdefault('beyond_list_rejections', []).append([sid, seq, clause])
             continue
